@@ -543,7 +543,7 @@ def check_node(ent):
         return '==: %r == %r is %r' % (x, F[1], bool(out))
     return None
 
-KNOWN_CLASSES = ('F10:', 'F17:', 'F17e:', 'F17s:', 'F23:')
+KNOWN_CLASSES = ('F17:', 'F17e:', 'F17s:', 'F23:')   # 'F10:' messages (external lost) are ordinary violations since fix 8ee055e
 
 def oracle(fn, arg, out):
     """the verdict was computed next to the implementation call (in the worker process, so that it
@@ -565,7 +565,7 @@ def judge(trace):
 
 def _sig(cls):
     return lambda kind, fn, arg, detail: kind == 'oracle' and isinstance(detail, str) and detail.startswith(cls + ':')
-KNOWN_SIGNATURES = {'F10': _sig('F10'), 'F17': _sig('F17'), 'F17e': _sig('F17e'), 'F17s': _sig('F17s'), 'F23': _sig('F23')}
+KNOWN_SIGNATURES = {'F17': _sig('F17'), 'F17e': _sig('F17e'), 'F17s': _sig('F17s'), 'F23': _sig('F23')}
 
 def replay_known(finding):
     p = finding.get('pinned')
